@@ -46,11 +46,34 @@ mod verif_search {
         leaves
     }
 
+    /// n code lengths of a complete prefix code, as skewed as maxlen allows, ascending (the last symbols get the longest codes)
+    fn skewed_lengths(n: usize, maxlen: u32) -> Vec<u32> {
+        let mut leaves = vec![1u32, 1];
+        while leaves.len() < n {
+            let mut k = 0; let mut best = 0;
+            for (i, &d) in leaves.iter().enumerate() { if d < maxlen && d >= best { best = d; k = i; } }
+            leaves[k] += 1; let d = leaves[k]; leaves.push(d);
+        }
+        leaves.sort();
+        leaves
+    }
+
     fn gen_stream(rng: &mut Rng, lenient: bool) -> (Vec<u8>, Vec<u8>, String) {
         let mut b = Bits::new();
         let mut text: Vec<u8> = vec![];
         let mut desc = String::new();
         let nblocks = 1 + rng.below(3);
+        // now and then the stream starts with a 32 KiB stored block, so that the blocks after it can use the far distance
+        // symbols (24..29, 11..13 extra bits) -- with skewed distance codes those get 13..15-bit codewords
+        let far = rng.below(24) == 0;
+        if far {
+            b.put(0, 1); b.put(0, 2);
+            let p = b.pending(); b.put(0, p);
+            let len = 32768 + rng.below(1500);
+            b.put(len, 16); b.put(!len & 0xffff, 16);
+            for _ in 0..len { let c = (rng.next() & 0xff) as u8; b.put(c as u32, 8); text.push(c); }
+            desc += &format!("[stored len={} far]", len);
+        }
         for bi in 0..nblocks {
             let last = bi + 1 == nblocks;
             let kind = rng.below(3);
@@ -90,6 +113,7 @@ mod verif_search {
                 for (k, &sy) in used.iter().enumerate() { ll[sy] = lens[k]; }
                 let dl: Vec<u32> = if let Some(sy) = lone_dist { let mut d = vec![0u32; sy + 1]; d[sy] = 1; d }
                     else if no_dist { vec![0u32] }
+                    else if far && rng.below(2) == 0 { skewed_lengths(30, 15) }
                     else { let nd = 2 + rng.below(29) as usize; rand_lengths(rng, nd, 15) };
                 (ll, dl)
             };
